@@ -110,6 +110,22 @@ static void blk_encrypt(void) {
 	/* set_data */
 	for (int li = 0; li < 7; li++) { if (!vh_next()) continue; size_t n = CLEN[li], ml = 0; int r = cms_set_data(MSG, &ml, CONTENT, n); vh_eval(vh_mix(n + 71)); int ct; const uint8_t *c; size_t cl; const uint8_t *cp = MSG; size_t il = ml; if (r != 1) { if (n) vh_viol("C16:set_data:refused", "\"len\":%zu", n); continue; } if (cms_content_info_from_der(&ct, &c, &cl, &cp, &il) != 1 || ct != OID_cms_data || il || !content_matches(ct, c, cl, CONTENT, n)) vh_viol("C16:set_data:roundtrip", "\"len\":%zu", n); }
 }
+/* the optional shared-info fields of the three encrypting message kinds, every pair of lengths from a small set (absent, 1, 16, 200 octets; the two
+   fields of different sizes in particular): the message must still round-trip for every recipient, and the shared infos come back as supplied */
+static void blk_shared_info(void) {
+	if (!vh_block_begin("shared-info")) return; static const size_t SL[] = { 0, 1, 16, 200 }; static uint8_t S1[200], S2[200]; for (int i = 0; i < 200; i++) { S1[i] = (uint8_t)(0x51 + i); S2[i] = (uint8_t)(0xa2 - i); }
+	for (int kind = 0; kind < 3; kind++) for (int a = 0; a < 4; a++) for (int b = 0; b < 4; b++) { if (!vh_next()) continue; size_t n = 33, ml = 0, l1 = SL[a], l2 = SL[b]; const uint8_t *p1 = l1 ? S1 : NULL, *p2 = l2 ? S2 : NULL; static const char *KN[] = { "encrypt", "envelop", "sign-and-envelop" }; char key[160]; int r; venv_reset(8100 + kind * 16 + a * 4 + b);
+		static uint8_t rc[3000]; size_t rcl = 0; for (int i = 0; i < 2; i++) { memcpy(rc + rcl, RCERT[i], RCL[i]); rcl += RCL[i]; } CMS_CERTS_AND_KEY sg = { SCERT[0], SCL[0], &SKEY[0][0] };
+		r = kind == 0 ? cms_encrypt(MSG, &ml, OID_sm4_cbc, SK, 16, IV, 16, OID_cms_data, CONTENT, n, p1, l1, p2, l2) : kind == 1 ? cms_envelop(MSG, &ml, rc, rcl, OID_sm4_cbc, SK, 16, IV, 16, OID_cms_data, CONTENT, n, p1, l1, p2, l2)
+			: cms_sign_and_envelop(MSG, &ml, &sg, 1, rc, rcl, OID_sm4_cbc, SK, 16, IV, 16, OID_cms_data, CONTENT, n, NULL, 0, p1, l1, p2, l2); size_t kk[3] = { (size_t)kind, l1, l2 }; vh_eval(vh_hash(kk, sizeof kk, 21));
+		if (r != 1) { snprintf(key, sizeof key, "C16:shared-info:%s:refused", KN[kind]); vh_viol(key, "\"info1_len\":%zu,\"info2_len\":%zu,\"ret\":%d", l1, l2, r); continue; }
+		for (int i = 0; i < (kind ? 2 : 1); i++) { int ct, alg; size_t ol = 0; const uint8_t *ri, *si, *sc, *scr, *s1 = NULL, *s2 = NULL; size_t ril, sil, scl, scrl, s1l = 0, s2l = 0; memset(OUT, 0xEE, n + 32);
+			r = kind == 0 ? cms_decrypt(MSG, ml, &alg, SK, 16, &ct, OUT, &ol, &s1, &s1l, &s2, &s2l) : kind == 1 ? cms_deenvelop(MSG, ml, &RKEY[i][0], RCERT[i], RCL[i], &ct, OUT, &ol, &ri, &ril, &s1, &s1l, &s2, &s2l)
+				: cms_deenvelop_and_verify(MSG, ml, &RKEY[i][0], RCERT[i], RCL[i], NULL, 0, NULL, 0, &ct, OUT, &ol, &ri, &ril, &si, &sil, &sc, &scl, &scr, &scrl, &s1, &s1l, &s2, &s2l); vh_eval(vh_hash(kk, sizeof kk, 31 + i));
+			if (r != 1 || ol != n || memcmp(OUT, CONTENT, n)) { snprintf(key, sizeof key, "C16:shared-info:%s:own-message-does-not-open", KN[kind]); vh_viol(key, "\"info1_len\":%zu,\"info2_len\":%zu,\"recipient\":%d,\"ret\":%d", l1, l2, i, r); break; }
+			if (s1l != l1 || s2l != l2 || (l1 && memcmp(s1, S1, l1)) || (l2 && memcmp(s2, S2, l2))) { snprintf(key, sizeof key, "C16:shared-info:%s:shared-info-differs-from-the-supplied-one", KN[kind]); vh_viol(key, "\"info1_len\":%zu,\"info2_len\":%zu,\"got1\":%zu,\"got2\":%zu", l1, l2, s1l, s2l); break; } }
+		vh_sample("{\"block\":\"shared-info\",\"kind\":\"%s\",\"info1_len\":%zu,\"info2_len\":%zu,\"msglen\":%zu}", KN[kind], l1, l2, ml); }
+}
 static void blk_sign_envelop(void) {
 	/* realistic certificates: six-field issuer names, 20-octet serial numbers - the RecipientInfo of each recipient is then about 270 octets instead of 230 */
 	if (vh_block_begin("realistic-names")) { static uint8_t rcert[NP][1400]; static size_t rcl[NP]; uint8_t inm[256], snm[256]; size_t inl = 0, snl = 0; x509_name_set(inm, &inl, sizeof inm, "CN", "Beijing Municipality", "Haidian District", "Example Certification Authority Ltd", "Department of Secure Messaging", "Example Issuing CA for Recipients G2");
@@ -178,5 +194,5 @@ static void blk_lookalike_signers(void) {
 		/* one signer's signature replaced by the other's must not verify: swap the two sign keys */
 		CMS_CERTS_AND_KEY sw[2] = { { cert[a], cl[a], &CK[b] }, { cert[b], cl[b], &CK[a] } }; ml = 0; venv_reset(9700 + c * 2 + order); if (cms_sign(MSG, &ml, sw, 2, OID_cms_data, CONTENT, 33, NULL, 0) == 1) { r = cms_verify(MSG, ml, NULL, 0, NULL, 0, &ct, &cc, &ccl, &certs, &certl, &crls, &crll, &sis, &sil); vh_eval(vh_mix(9800 + c * 2 + order)); if (r == 1) { snprintf(key, sizeof key, "C16:sign-lookalike:%s:signatures-by-each-others-keys-verify", LK[c].name); vh_viol(key, "\"order\":%d", order); } } }
 }
-static void body(void) { blk_sign(); blk_lookalike_signers(); blk_envelop(); blk_lookalike(); blk_encrypt(); blk_sign_envelop(); }
+static void body(void) { blk_sign(); blk_lookalike_signers(); blk_envelop(); blk_lookalike(); blk_encrypt(); blk_shared_info(); blk_sign_envelop(); }
 int main(int argc, char **argv) { vh_init(argc, argv); if (!freopen("/dev/null", "w", stderr)) {} setup(); vh_guarded("C16", body, vh_thorough ? 1200 : 120); return vh_finish(); }
